@@ -297,6 +297,8 @@ func c02ConstExprSources() []c02Src {
 		"Add(9223372036854775807, 1)", "Inc(-1)", "Inc(1) == 2", "not IsPos(0)", "IsPos(Inc(0)) and B"} {
 		out = append(out, c02Src{"const-expr", s})
 	}
+	// an in-range site inside an argument the checker does not visit when the callee has no static type (untyped mode)
+	out = append(out, c02Src{"in-range", "Add(P.Get(), (F64 in -1..3) ? 1 : 2)"}, c02Src{"in-range", "Id((S in 1..3) ? 1 : 2)"}, c02Src{"in-range", "Inc((F32 not in 0..9) ? 1 : 2)"})
 	// several calls of one ConstExpr function in one expression, with argument lists that differ only in
 	// type or in where one string ends and the next begins (a cache of results keyed by a rendering of the
 	// arguments must not identify them)
@@ -409,23 +411,24 @@ func c02Children(n ast.Node) []ast.Node {
 }
 
 type c02Feat struct {
-	constDivZero  bool // a constant integer sub-expression d / 0 or d % 0
-	retypedFloat  bool // foldable arithmetic with an integer literal retyped to a float kind
-	retypedDiv    bool // `/` below which an integer literal was retyped to a kind other than int / int64
-	retypedOther  bool // other foldable arithmetic on literals retyped to a non-int kind
-	retypedMixed  bool // a foldable + - * / whose operands are constant trees of DIFFERENT kinds (a retyped literal next to an int-typed `%` tree): fold keeps the left one's type
-	arrayFold     bool // non-empty array literal whose elements are all int-constant or all string-constant
-	arrayUnderMap bool // such an array below a map literal
-	inRangeSite   bool
-	inArrayNilish bool // in-array rewrite site whose left operand may be nil at run time (nil-safe access)
-	inRangeNilish bool // in-range site whose left operand has no static type or contains a nil-safe access / nil
-	inRangeImpure bool // ... whose left operand contains a call or allocates
-	inRangeNarrow bool // ... whose left operand is statically int8 / int16 / int32
-	rangeOverflow bool // range with constant bounds whose size overflows int64
-	rangeBeyond   bool // constant range of more than 10^6 elements that is not the right operand of in / not in
-	bigConst      bool // folded array / constant range (the budget is not charged)
-	constCall     bool
-	pows          [][2]float64
+	constDivZero   bool // a constant integer sub-expression d / 0 or d % 0
+	retypedFloat   bool // foldable arithmetic with an integer literal retyped to a float kind
+	retypedDiv     bool // `/` below which an integer literal was retyped to a kind other than int / int64
+	retypedOther   bool // other foldable arithmetic on literals retyped to a non-int kind
+	retypedMixed   bool // a foldable + - * / whose operands are constant trees of DIFFERENT kinds (a retyped literal next to an int-typed `%` tree): fold keeps the left one's type
+	arrayFold      bool // non-empty array literal whose elements are all int-constant or all string-constant
+	arrayUnderMap  bool // such an array below a map literal
+	inRangeSite    bool
+	inArrayNilish  bool // in-array rewrite site whose left operand may be nil at run time (nil-safe access)
+	inRangeNilish  bool // in-range site whose left operand has no static type or contains a nil-safe access / nil
+	inRangeImpure  bool // ... whose left operand contains a call or allocates
+	inRangeNarrow  bool // ... whose left operand is statically int8 / int16 / int32
+	inRangeUntyped bool // ... whose left operand has NO type annotation at all (an argument the checker never visited)
+	rangeOverflow  bool // range with constant bounds whose size overflows int64
+	rangeBeyond    bool // constant range of more than 10^6 elements that is not the right operand of in / not in
+	bigConst       bool // folded array / constant range (the budget is not charged)
+	constCall      bool
+	pows           [][2]float64
 }
 
 func c02IsStrConst(n ast.Node) bool {
@@ -635,6 +638,9 @@ func c02Features(root ast.Node, consts []string) c02Feat {
 						f.inRangeSite = true
 						if c02Nilish(n.Left) {
 							f.inRangeNilish = true
+						}
+						if n.Left.Type() == nil {
+							f.inRangeUntyped = true
 						}
 						if c02Impure(n.Left) {
 							f.inRangeImpure = true
@@ -1040,6 +1046,11 @@ func runC02() {
 	for i := 0; i < nGeneral; i++ {
 		t := []gtype{tBool, tBool, tInt, tNum, tStr, tArrInt, tArrAny, tAny}[rng.Intn(8)]
 		srcs = append(srcs, c02Src{"general", g.expr(t, 2+rng.Intn(3))})
+		if i == 0 {
+			for _, sh := range shapeSources() {
+				srcs = append(srcs, c02Src{"shapes", sh})
+			}
+		}
 	}
 	cx := c02ConstExprSources()
 
@@ -1253,6 +1264,10 @@ func c02Classify(f c02Feat, r0, r1 coreRun, skip map[string]bool) string {
 		return "C02-fold-retyped-int"
 	case r0.err == nil && r1.err == nil && f.inRangeImpure && !simLog(r0.log, r1.log, skip):
 		return "C02-in-range-double-eval"
+	case f.inRangeUntyped && !(r0.err != nil && r1.err != nil):
+		// the rewrite fired on a left operand without any static type (unvisited argument): a float / string value
+		// at run time makes `x >= a and x <= b` differ from `x in a..b`
+		return "C02-in-range-nil-type"
 	case r0.err != nil && r1.err != nil:
 		return "C02-mismatch"
 	}
